@@ -11,6 +11,8 @@ from .universe import FS, Universe
 SEP_ALPHABET = [":", "=", "(", ")", "[", "]", "@", "<", ">", "'", "|", ",", " ", "<class 'str'>", "-1", "_1"]
 
 PLAIN_STRS = ["", "a", "b", "ab", "x1", "foo", "Foo", "1", "0", "True", "None", "a b", "-", "+"]
+# canonically equivalent but different strings (NFC / NFD, compatibility look-alikes), case pairs, digit look-alikes
+UNICODE_STRS = ["caf\u00e9", "cafe\u0301", "\u2126", "\u03a9", "\u00c5", "A\u030a", "\u212b", "stra\u00dfe", "strasse", "\u0661", "1", "\uff11", "a\u00a0b", "a b", "a\x00b", "ab"]
 
 
 def sep_string(rng) -> str:
@@ -24,6 +26,8 @@ def sep_string(rng) -> str:
 def gen_str(rng, hostile: float = 0.15) -> str:
     if rng.random() < hostile:
         return sep_string(rng)
+    if rng.random() < 0.12:
+        return rng.choice(UNICODE_STRS)
     return rng.choice(PLAIN_STRS)
 
 
